@@ -21,7 +21,11 @@ func scopeScenario(r *rng) MalType {
 	}
 	thunk := ls(sy("fn"), vc(), x)                // (fn [] x)
 	inLet := ls(sy("let"), vc(sy("y"), 0), thunk) // closure created inside a let scope of its own
-	mk := []MalType{thunk, inLet}[r.intn(2)]
+	// … or inside a let that SNAPSHOTS the variable under its own name ((let [x x] …): a new binding holding the value of
+	// the outer one): a later redefinition of the outer binding is not seen by the closure
+	snap := ls(sy("let"), vc(x, x), thunk)
+	snapL := ls(sy("let"), ls(sy("y"), 0, x, x), thunk)
+	mk := []MalType{thunk, inLet, thunk, inLet, snap, snapL}[r.intn(6)]
 	switch r.intn(14) {
 	case 11, 12, 13:
 		// a tail-recursive loop whose body makes a closure INSIDE A NESTED LET (so the closure's own scope is the let's, the
